@@ -28,7 +28,7 @@ class ConditionalEffect:
         )
 
         return (
-            f"(when {str(self.antecedents)} "
+            f"(when {self.antecedents.print(should_simplify=False)} "
             f"(and {discrete_effect}{numeric_effect}))"
         )
 
